@@ -1,9 +1,10 @@
 """C18 - Dispatch keeps connections together and accounts for every packet exactly once.
 
-Structural clauses decided (DESIGN.md §5 C18):
+Structural clauses decided:
  R1 every worker index handed out is reduced modulo the worker count (or the sender is fetched with a checked `get`)
- R2 on non-fallback paths the hashed values are identity bytes only (addresses; ports at the TCP header start):
-    TCP = source address, TLS = directed 4-tuple, HTTP = the 4-tuple in a direction-independent way
+ R2 on non-fallback paths the hashed values are identity bytes only (addresses; ports read at the TCP header start, i.e.
+    IHL*4 / 40 bytes behind the IP header): TCP = source address, TLS = directed 4-tuple, HTTP = the 4-tuple ordered by a total
+    order on (address, port)
  R3 per-path effects of the three `dispatch` bodies match the returned outcome (Queued/Dropped, counters, single try_send)
  R4 the drop / dispatch counters are written only by `dispatch`
  R5 `stats` reports exactly those counters
